@@ -199,4 +199,21 @@ def r03_4_verdict_domain(repo: Repo, rep: Report):
     rep.check("R03.4", ok, m, msg[0] if msg else fn, src(msg[0])[:150] if msg else "Message(...)", "the test transaction must call the test contract with the symbolic calldata")
 
 
-RULES = [r03_1_classification, r03_2_panic_recognition, r03_3_setup_fail_closed, r03_4_verdict_domain]
+def r03_5_shared(repo: Repo, rep: Report):
+    """end-to-end PASS also rests on: the query is the path's constraints (C11), every length candidate is laid
+    out and explored (C12), PASS-dominance and the join barrier (C05), sound cache hits (C16)"""
+    from hsa.rules.c05 import r05_1_pass_dominance, r05_4_order_independence
+    from hsa.rules.c11 import r11_1_serialisation
+    from hsa.rules.c12 import r12_4_candidates
+    from hsa.rules.c16 import r16_2_subset_test
+
+    rep.rule("R11.1", "serialisation is complete, ids are term ids (shared with C11)")
+    rep.rule("R12.4", "all length candidates recorded, registered, laid out for the maximum (shared with C12)")
+    rep.rule("R05.1", "PASS only under the negation of all failure guards (shared with C05)")
+    rep.rule("R05.4", "verdict after the join barrier (shared with C05)")
+    rep.rule("R16.2", "cache hit needs a full core (shared with C16)")
+    for f in (r11_1_serialisation, r12_4_candidates, r05_1_pass_dominance, r05_4_order_independence, r16_2_subset_test):
+        f(repo, rep)
+
+
+RULES = [r03_1_classification, r03_2_panic_recognition, r03_3_setup_fail_closed, r03_4_verdict_domain, r03_5_shared]
